@@ -8,7 +8,9 @@
   disappeared from daemon.c / connection.c breaks the build.
 
   Quantification: every daemon history (`List Op`, any length) of a daemon started in any mode
-  with any application scripts (`plans : Nat → Plan`, one per connection index: suspend points at the first call and its repetitions, at upload call i, at the
+  with any application scripts (`plans c` for the first request of connection `c`, `later c` — a list
+  of any length — for the requests that follow on the same keep-alive connection; the bytes of a
+  following request may already sit in the read buffer while an earlier one is suspended; per request: suspend points at the first call and its repetitions, at upload call i, at the
   final call and its repetitions, at content-reader call j; per point the resume is issued
   after k rounds / in the callback right after the suspend / *before* the suspend (the other
   order of the race with a second thread) / by an explicit operation), arrivals, client sends of any
@@ -16,7 +18,7 @@
   that are not suspended), rounds in select / poll / epoll mode with *any* readiness answer of
   the kernel, any number of connections.
 -/
-import Mhd.Proofs.SuspLossless
+import Mhd.Proofs.SuspThread
 
 namespace Mhd.C11
 open Mhd.Susp
@@ -31,27 +33,27 @@ theorem guards_present : srcGuards.Sound := by decide
 /-- The daemon's lists and the per-connection flags agree in every reachable state:
     a connection is in the suspended list iff its `suspended` flag is set; the suspended list is
     disjoint from the active list; the eready and timeout lists are sub-lists of the active list. -/
-theorem lists_consistent (m : Mode) (plans : Nat → Plan) (ops : List Op) : WF (run srcGuards (Daemon.init m plans) ops).1 :=
-  run_WF srcGuards guards_present ops _ (WF_init m plans)
+theorem lists_consistent (m : Mode) (plans : Nat → Plan) (later : Nat → List Plan) (ops : List Op) : WF (run srcGuards (Daemon.init m plans later) ops).1 :=
+  run_WF srcGuards guards_present ops _ (WF_init m plans later)
 
 /-- A suspended connection is in no list that an event loop traverses. -/
-theorem suspended_not_traversed (m : Mode) (plans : Nat → Plan) (ops : List Op) (c : Nat)
-    (hs : ((run srcGuards (Daemon.init m plans) ops).1.conn c).suspended = true) :
-    let d := (run srcGuards (Daemon.init m plans) ops).1
+theorem suspended_not_traversed (m : Mode) (plans : Nat → Plan) (later : Nat → List Plan) (ops : List Op) (c : Nat)
+    (hs : ((run srcGuards (Daemon.init m plans later) ops).1.conn c).suspended = true) :
+    let d := (run srcGuards (Daemon.init m plans later) ops).1
     c ∈ d.susp ∧ c ∉ d.active ∧ c ∉ d.eready ∧ c ∉ d.normalTO ∧ c ∉ d.newConns := by
-  have hw := lists_consistent m plans ops
+  have hw := lists_consistent m plans later ops
   have h1 := (hw.susp_iff c).1 hs
-  have h2 : c ∉ (run srcGuards (Daemon.init m plans) ops).1.active := fun hm => hw.act_nosusp c hm h1
+  have h2 : c ∉ (run srcGuards (Daemon.init m plans later) ops).1.active := fun hm => hw.act_nosusp c hm h1
   exact ⟨h1, h2, fun hm => h2 (hw.er_sub c hm), fun hm => h2 (hw.to_sub c hm), fun hm => (hw.new_fresh c hm).2 h1⟩
 
 /-- No resume request is ever lost: whenever a suspended connection has its `resuming` flag
     set, `daemon->resuming` is set as well, so the next resume_suspended_connections scans the
     list (this is what the `if (connection->resuming)` short-cut of internal_suspend_connection_
     protects). -/
-theorem no_lost_resume (m : Mode) (plans : Nat → Plan) (ops : List Op) (c : Nat) :
-    let d := (run srcGuards (Daemon.init m plans) ops).1
+theorem no_lost_resume (m : Mode) (plans : Nat → Plan) (later : Nat → List Plan) (ops : List Op) (c : Nat) :
+    let d := (run srcGuards (Daemon.init m plans later) ops).1
     (d.conn c).suspended = true → (d.conn c).resuming = true → d.resuming = true :=
-  (lists_consistent m plans ops).no_lost c
+  (lists_consistent m plans later ops).no_lost c
 
 /-- … and the entry points return first thing: even if an event loop did call them, the turn of
     a suspended connection does nothing (no callback, no recv/send, no state change). -/
@@ -69,21 +71,21 @@ theorem suspended_entry_points_return (ep rr wr : Bool) (k : Conn) (hk : k.suspe
     changes its processing state (`Conn.core`: everything but the socket's receive queue, the
     ghost copy of the client's bytes and the script timer) or moves it out of the suspended
     list.  A `send` of its own client only appends to the socket's receive queue. -/
-theorem suspended_frozen (m : Mode) (plans : Nat → Plan) (ops : List Op) (c : Nat) (op : Op)
-    (hs : c ∈ (run srcGuards (Daemon.init m plans) ops).1.susp)
-    (hr : ((run srcGuards (Daemon.init m plans) ops).1.conn c).resuming = false)
-    (ht : ((run srcGuards (Daemon.init m plans) ops).1.conn c).timer ≠ some 0)
+theorem suspended_frozen (m : Mode) (plans : Nat → Plan) (later : Nat → List Plan) (ops : List Op) (c : Nat) (op : Op)
+    (hs : c ∈ (run srcGuards (Daemon.init m plans later) ops).1.susp)
+    (hr : ((run srcGuards (Daemon.init m plans later) ops).1.conn c).resuming = false)
+    (ht : ((run srcGuards (Daemon.init m plans later) ops).1.conn c).timer ≠ some 0)
     (hop : match op with
       | .resume c' => c' ≠ c
       | .round ids _ _ => ids.Nodup
       | .eround ids _ => ids.Nodup
       | _ => True) :
-    let d := (run srcGuards (Daemon.init m plans) ops).1
+    let d := (run srcGuards (Daemon.init m plans later) ops).1
     proj c (step srcGuards d op).2 = [] ∧ c ∈ (step srcGuards d op).1.susp ∧
     ((step srcGuards d op).1.conn c).core = (d.conn c).core ∧
     ((step srcGuards d op).1.conn c).inbox
       = (d.conn c).inbox ++ (match op with | .send c' syms => if c' = c then syms else [] | _ => []) := by
-  have r := frozen_step srcGuards guards_present _ (lists_consistent m plans ops) c ⟨hs, hr⟩ ht op hop
+  have r := frozen_step srcGuards guards_present _ (lists_consistent m plans later ops) c ⟨hs, hr⟩ ht op hop
   exact ⟨r.1, r.2.1.1, r.2.2.1, r.2.2.2⟩
 
 /-- QUIET.  In the event log of every history, projected on any connection: between an
@@ -92,18 +94,16 @@ theorem suspended_frozen (m : Mode) (plans : Nat → Plan) (ops : List Op) (c : 
     and no second suspend.  (`quietFrom` is the monitor; `some s` = accepted, `s` = suspended at
     the end.)  Assumption on the application: a content reader of a *known-size* response that
     suspends returns 0 — or the write path is guarded (`writeReaderGuard`, see `reader_data_witness`). -/
-theorem quiet_while_suspended (m : Mode) (plans : Nat → Plan) (ops : List Op)
-    (hplans : srcGuards.writeReader = true ∨ ∀ c, (plans c).rd = false ∨ (plans c).rkind = .cbUnknown) (c : Nat) :
-    quietFrom false (proj c (run srcGuards (Daemon.init m plans) ops).2)
-      = some ((run srcGuards (Daemon.init m plans) ops).1.conn c).suspended := by
-  have h := run_QD srcGuards guards_present ops (Daemon.init m plans) (by
+theorem quiet_while_suspended (m : Mode) (plans : Nat → Plan) (later : Nat → List Plan) (ops : List Op)
+    (hplans : srcGuards.writeReader = true ∨ ∀ c, ∀ p ∈ plans c :: later c, p.rd = false ∨ p.rkind = .cbUnknown) (c : Nat) :
+    quietFrom false (proj c (run srcGuards (Daemon.init m plans later) ops).2)
+      = some ((run srcGuards (Daemon.init m plans later) ops).1.conn c).suspended := by
+  have h := run_QD srcGuards guards_present ops (Daemon.init m plans later) (by
     intro a
-    unfold RdOK Conn.chunkedReply
+    unfold RdOK
     rcases hplans with h | h
     · exact Or.inl h
-    · rcases h a with h | h
-      · exact Or.inr (Or.inl h)
-      · exact Or.inr (Or.inr (by simp [Daemon.init, h])))
+    · exact Or.inr (by simpa [Daemon.init, Conn.script] using h a))
   exact h.1 c
 
 /-- RESUME RE-ENTERS AT THE SAME STATE.  A suspended connection whose resume was requested is
@@ -111,15 +111,15 @@ theorem quiet_while_suspended (m : Mode) (plans : Nat → Plan) (ops : List Op)
     traversal runs MHD_connection_handle_idle on it), out of the suspended list, `suspended` and
     `resuming` cleared, in epoll mode queued in the eready list as read- and write-ready — and
     nothing else of its record has changed (`resumedConn`). -/
-theorem resume_reenters (m : Mode) (plans : Nat → Plan) (ops : List Op) (c : Nat)
-    (hs : c ∈ (run srcGuards (Daemon.init m plans) ops).1.susp)
-    (hr : ((run srcGuards (Daemon.init m plans) ops).1.conn c).resuming = true) :
-    let d := (run srcGuards (Daemon.init m plans) ops).1
+theorem resume_reenters (m : Mode) (plans : Nat → Plan) (later : Nat → List Plan) (ops : List Op) (c : Nat)
+    (hs : c ∈ (run srcGuards (Daemon.init m plans later) ops).1.susp)
+    (hr : ((run srcGuards (Daemon.init m plans later) ops).1.conn c).resuming = true) :
+    let d := (run srcGuards (Daemon.init m plans later) ops).1
     (c, CEv.resumed) ∈ (resumeSuspended srcGuards d).2 ∧ c ∈ (resumeSuspended srcGuards d).1.active ∧
     c ∉ (resumeSuspended srcGuards d).1.susp ∧
     (resumeSuspended srcGuards d).1.conn c = resumedConn srcGuards d.isEpoll (d.conn c) ∧
     (d.isEpoll = true → c ∈ (resumeSuspended srcGuards d).1.eready) :=
-  resume_moves_back srcGuards _ (lists_consistent m plans ops) c hs hr
+  resume_moves_back srcGuards _ (lists_consistent m plans later ops) c hs hr
 
 theorem resumedConn_core (ep : Bool) (k : Conn) :
     (resumedConn srcGuards ep k).noEpoll = { k with suspended := false, resuming := false }.noEpoll ∧
@@ -141,51 +141,145 @@ theorem race_both_orders (ep : Bool) (k : Conn) (hs : k.suspended = false) (hr :
     (suspendAct srcGuards k .pre).2 = [.resumeReq, .suspend false] :=
   race_same_state srcGuards guards_present.2.2.2.2.2.2.2 ep k hs hr
 
-/-! ### lossless continuation -/
+/-! ### lossless continuation, over the whole keep-alive pipeline -/
 
 /-- LOSSLESS (request side), for every history and every connection: the bytes delivered to the
-    handler so far, followed by the body bytes waiting in the read buffer and in the socket, are
-    exactly the body bytes the client has sent — nothing is lost, duplicated or reordered, wherever
-    and however often the connection was suspended. -/
-theorem upload_lossless (m : Mode) (plans : Nat → Plan) (ops : List Op) (c : Nat) :
-    let r := run srcGuards (Daemon.init m plans) ops
+    handler so far (over all requests of the connection), followed by the body bytes waiting in the
+    read buffer — including read-ahead of pipelined requests — and in the socket, are exactly the
+    body bytes the client has sent: nothing is lost, duplicated or reordered, wherever in whichever
+    request and however often the connection was suspended. -/
+theorem upload_lossless (m : Mode) (plans : Nat → Plan) (later : Nat → List Plan) (ops : List Op) (c : Nat) :
+    let r := run srcGuards (Daemon.init m plans later) ops
     upBytes (proj c r.2) ++ dataOf (r.1.conn c).rbuf ++ dataOf (r.1.conn c).inbox = dataOf (r.1.conn c).sent :=
-  run_upload srcGuards ops (Daemon.init m plans) c rfl
+  run_upload srcGuards ops (Daemon.init m plans later) c rfl
 
-/-- LOSSLESS (reply side): the body bytes sent to the client so far, followed by the chunk
-    waiting in the write buffer, are exactly the first `rwp` bytes the application supplied
-    (`patRange rid 0 rwp`); and once the request is finished the client has received the whole body. -/
-theorem reply_lossless (m : Mode) (plans : Nat → Plan) (ops : List Op) (c : Nat) :
-    let r := run srcGuards (Daemon.init m plans) ops
+/-- the scripts of a connection are served in order: `done` (completed), `plan` (current), `later` -/
+theorem pipeline_order (m : Mode) (plans : Nat → Plan) (later : Nat → List Plan) (ops : List Op) (c : Nat) :
+    let k := (run srcGuards (Daemon.init m plans later) ops).1.conn c
+    k.done ++ k.plan :: k.later = plans c :: later c :=
+  run_script srcGuards guards_present.2.2.2.2.2.2.2 ops m plans later c
+
+/-- LOSSLESS (reply side): the body bytes sent to the client so far are the complete reply bodies of
+    the requests already served (`bodies k.done`), followed by the first `rwp` bytes of the current
+    reply minus the chunk waiting in the write buffer; and once the last request is finished the
+    client has received every body completely, in request order. -/
+theorem reply_lossless (m : Mode) (plans : Nat → Plan) (later : Nat → List Plan) (ops : List Op) (c : Nat) :
+    let r := run srcGuards (Daemon.init m plans later) ops
     let k := r.1.conn c
-    wireBytes (proj c r.2) ++ k.wpend = patRange k.plan.rid 0 k.rwp ∧ k.rwp ≤ k.plan.size ∧
-    (k.st = .finished → wireBytes (proj c r.2) = patRange k.plan.rid 0 k.plan.size) :=
-  run_reply srcGuards ops m plans c
+    wireBytes (proj c r.2) ++ k.wpend = bodies k.done ++ patRange k.plan.rid 0 k.rwp ∧ k.rwp ≤ k.plan.size ∧
+    (k.st = .finished → k.later = [] → wireBytes (proj c r.2) = bodies (plans c :: later c)) := by
+  have h := run_reply srcGuards ops m plans later c
+  refine ⟨h.1, h.2.1, fun hf hl => ?_⟩
+  rw [h.2.2 hf, finished_script srcGuards guards_present.2.2.2.2.2.2.2 ops m plans later c hl]
 
-/-- a finished Content-Length request has delivered exactly its `n` body bytes to the handler -/
-theorem upload_complete (m : Mode) (plans : Nat → Plan) (ops : List Op) (c n : Nat)
-    (hb : (plans c).body = .cl n) (hf : ((run srcGuards (Daemon.init m plans) ops).1.conn c).st = .finished) :
-    (upBytes (proj c (run srcGuards (Daemon.init m plans) ops).2)).length = n :=
-  (run_count srcGuards ops m plans c n hb).2.late (by rw [hf]; rfl)
+/-- a finished pipeline of Content-Length (or body-less) requests has delivered exactly the declared
+    number of body bytes to the handler -/
+theorem upload_complete (m : Mode) (plans : Nat → Plan) (later : Nat → List Plan) (ops : List Op) (c : Nat)
+    (hb : ∀ p ∈ plans c :: later c, p.body ≠ .chunked)
+    (hf : ((run srcGuards (Daemon.init m plans later) ops).1.conn c).st = .finished)
+    (hl : ((run srcGuards (Daemon.init m plans later) ops).1.conn c).later = []) :
+    (upBytes (proj c (run srcGuards (Daemon.init m plans later) ops).2)).length = clSum (plans c :: later c) := by
+  have h := (run_count srcGuards guards_present.2.2.2.2.2.2.2 ops m plans later c hb).late (by rw [hf]; rfl)
+  rw [h, ← finished_script srcGuards guards_present.2.2.2.2.2.2.2 ops m plans later c hl, clSum_append]
+  simp [clSum]
 
-/-- STUTTER EQUIVALENCE.  Take any two histories — e.g. one with suspend points, resume delays,
-    modes and interleavings of your choice, and the same script with all suspends erased
-    (`Plan.erase`) — in which connection `c` carries the same request (body kind, reply) and the
-    client sent the same body bytes.  If both ran the request to completion, the projections on `c`
-    agree: the client received the same reply body, and (Content-Length uploads) the handler
-    consumed the same upload bytes. -/
-theorem stutter_equivalence (m₁ m₂ : Mode) (pl₁ pl₂ : Nat → Plan) (ops₁ ops₂ : List Op) (c : Nat)
-    (hplan : (pl₁ c).erase = (pl₂ c).erase)
-    (hsent : dataOf ((run srcGuards (Daemon.init m₁ pl₁) ops₁).1.conn c).sent
-              = dataOf ((run srcGuards (Daemon.init m₂ pl₂) ops₂).1.conn c).sent)
-    (hf₁ : ((run srcGuards (Daemon.init m₁ pl₁) ops₁).1.conn c).st = .finished)
-    (hf₂ : ((run srcGuards (Daemon.init m₂ pl₂) ops₂).1.conn c).st = .finished) :
-    wireBytes (proj c (run srcGuards (Daemon.init m₁ pl₁) ops₁).2)
-      = wireBytes (proj c (run srcGuards (Daemon.init m₂ pl₂) ops₂).2) ∧
-    (∀ n, (pl₁ c).body = .cl n →
-      upBytes (proj c (run srcGuards (Daemon.init m₁ pl₁) ops₁).2)
-        = upBytes (proj c (run srcGuards (Daemon.init m₂ pl₂) ops₂).2)) :=
-  stutter srcGuards guards_present m₁ m₂ pl₁ pl₂ ops₁ ops₂ c hplan hsent hf₁ hf₂
+/-- STUTTER EQUIVALENCE over request sequences.  Take any two histories — e.g. one with suspend points
+    anywhere in any request of the pipeline, any resume delays, modes and interleavings, and the same
+    scripts with all suspends erased (`Plan.erase`) — in which connection `c` carries the same
+    sequence of requests (body kinds, replies) and the client sent the same body bytes.  If both ran
+    the pipeline to completion, the projections on `c` agree: the client received the same reply
+    bodies, and (pipelines without chunked uploads) the handler consumed the same upload bytes. -/
+theorem stutter_equivalence (m₁ m₂ : Mode) (pl₁ pl₂ : Nat → Plan) (la₁ la₂ : Nat → List Plan) (ops₁ ops₂ : List Op) (c : Nat)
+    (hplan : (pl₁ c :: la₁ c).map Plan.erase = (pl₂ c :: la₂ c).map Plan.erase)
+    (hsent : dataOf ((run srcGuards (Daemon.init m₁ pl₁ la₁) ops₁).1.conn c).sent
+              = dataOf ((run srcGuards (Daemon.init m₂ pl₂ la₂) ops₂).1.conn c).sent)
+    (hf₁ : ((run srcGuards (Daemon.init m₁ pl₁ la₁) ops₁).1.conn c).st = .finished ∧
+           ((run srcGuards (Daemon.init m₁ pl₁ la₁) ops₁).1.conn c).later = [])
+    (hf₂ : ((run srcGuards (Daemon.init m₂ pl₂ la₂) ops₂).1.conn c).st = .finished ∧
+           ((run srcGuards (Daemon.init m₂ pl₂ la₂) ops₂).1.conn c).later = []) :
+    wireBytes (proj c (run srcGuards (Daemon.init m₁ pl₁ la₁) ops₁).2)
+      = wireBytes (proj c (run srcGuards (Daemon.init m₂ pl₂ la₂) ops₂).2) ∧
+    ((∀ p ∈ pl₁ c :: la₁ c, p.body ≠ .chunked) →
+      upBytes (proj c (run srcGuards (Daemon.init m₁ pl₁ la₁) ops₁).2)
+        = upBytes (proj c (run srcGuards (Daemon.init m₂ pl₂ la₂) ops₂).2)) :=
+  stutter srcGuards guards_present m₁ m₂ pl₁ pl₂ la₁ la₂ ops₁ ops₂ c hplan hsent hf₁ hf₂
+
+/-! ### the epoll ready list -/
+
+/-- NO LOST WAKE-UP (edge-triggered epoll).  In every reachable state of an epoll daemon: if `c` is
+    suspended with a resume request pending when MHD_epoll starts (after the script thread's timers),
+    then this round — for *every* answer `evs` of epoll_wait, the empty one included — logs the
+    `resumed` marker for `c` and afterwards gives `c` a turn that starts from exactly the record it was
+    frozen with (flags cleared, read- and write-ready set): MHD_connection_handle_idle from the timeout
+    scan or call_handlers(read_ready, write_ready) from the eready traversal.  Bytes buffered before the
+    suspension (`rbuf`, pipelined read-ahead included) or arrived during it (`inbox`: the edge the
+    daemon did not see) are therefore processed without any new epoll event. -/
+theorem epoll_no_lost_wakeup (plans : Nat → Plan) (later : Nat → List Plan) (ops : List Op) (c : Nat)
+    (ids : List Nat) (evs : List (Nat × Bool × Bool)) :
+    let d := (run srcGuards (Daemon.init .epoll plans later) ops).1
+    c ∈ (timers d ids).1.susp → ((timers d ids).1.conn c).resuming = true →
+    ∃ pre post f,
+      (roundEpoll srcGuards d ids evs).2
+        = pre ++ tag c (f (clearDres (resumedConn srcGuards true ((timers d ids).1.conn c)))).2 ++ post ∧
+      (c, CEv.resumed) ∈ pre ∧
+      (f = handleIdle srcGuards true ∨ f = fun k => callHandlers srcGuards true k true true) := by
+  intro d hs hr
+  have hm : d.isEpoll = true := by
+    have : ∀ (ops : List Op) (x : Daemon), (run srcGuards x ops).1.mode = x.mode := run_mode srcGuards
+    show ((run srcGuards (Daemon.init .epoll plans later) ops).1.mode == .epoll) = true
+    rw [this]; rfl
+  exact epoll_resume_round srcGuards guards_present (by decide) d (lists_consistent .epoll plans later ops) hm c ids evs hs hr
+
+/-- the eready traversal reaches every connection that is queued and marked ready, with both ready
+    flags passed to call_handlers and its record untouched by the turns before -/
+theorem eready_traversal_visits (c : Nat) (l : List Nat) (d : Daemon) (hc : c ∈ l) (hq : ReadyQ d c) :
+    ∃ pre post, (travEready srcGuards l d).2
+        = pre ++ tag c (callHandlers srcGuards d.isEpoll (clearDres (d.conn c)) true true).2 ++ post ∧ proj c pre = [] :=
+  travEready_visits srcGuards c l d hc hq
+
+/-- while a resume request is pending, and while the eready list is not empty, MHD_get_timeout
+    answers 0: the event loop is told not to block before the round that serves it -/
+theorem no_block_while_pending (m : Mode) (plans : Nat → Plan) (later : Nat → List Plan) (ops : List Op) (c : Nat) :
+    let d := (run srcGuards (Daemon.init m plans later) ops).1
+    (c ∈ d.susp → (d.conn c).resuming = true → d.hintZero = true) ∧
+    (d.isEpoll = true → c ∈ d.eready → d.hintZero = true) :=
+  ⟨resume_pending_hint _ (lists_consistent m plans later ops) c, fun hm => readyq_hint _ hm c⟩
+
+/-! ### resume requested by another thread inside a round (partial) -/
+
+/-- SECOND-THREAD RESUME INSIDE A TRAVERSAL (partial answer to "at any point of the round").
+    The connection traversals of a round (eready list / select snapshot / poll snapshot) are sequences of
+    atomic steps — one call_handlers per connection, each suspend inside taking cleanup_connection_mutex.
+    Split such a traversal at *any* point (`l₁ ++ l₂`) and let another thread call
+    MHD_resume_connection for a suspended connection `c` there (`resumeReq`, atomic under the same mutex).
+    Then at the end of the traversal the request is still pending — `c` is in the suspended list,
+    `connection->resuming` and `daemon->resuming` are set — MHD_get_timeout answers 0 (the loop must not
+    block; with an internal thread the ITC signal plays this role), and in any consistent state the next
+    resume_suspended_connections moves `c` back (`resumed` marker, active list, epoll: eready + ready flags).
+    `c ∉ l₁ ++ l₂` holds for every real traversal: the lists are sub-lists of the active list
+    (`lists_consistent`) and `c` is suspended.
+    NOT covered (missing for the full statement): the points between the non-traversal phases of a round
+    (timers | resume_suspended_connections | epoll events | new connections | timeout scan); a resume that
+    lands before resume_suspended_connections is served in the same round (`epoll_no_lost_wakeup`,
+    `resume_reenters`), one that lands after it commutes with those phases as with the turns here —
+    the per-phase `Pend` lemmas for `epollEvents` / `processNew` / `timeoutScan` are not written. -/
+theorem resume_inside_traversal_partial (c : Nat) (l₁ l₂ : List Nat) (d : Daemon) (hs : c ∈ d.susp)
+    (h₂ : c ∉ l₂) (fr fw rd wr : Nat → Bool) :
+    (let d' := (travEready srcGuards l₂ (resumeReq (travEready srcGuards l₁ d).1 c).1).1
+     Pend c d' ∧ d'.hintZero = true ∧ (WF d' → (c, CEv.resumed) ∈ (resumeSuspended srcGuards d').2 ∧
+       c ∈ (resumeSuspended srcGuards d').1.active)) ∧
+    (let d' := (travSelect srcGuards fr fw rd wr l₂ (resumeReq (travSelect srcGuards fr fw rd wr l₁ d).1 c).1).1
+     Pend c d' ∧ d'.hintZero = true ∧ (WF d' → (c, CEv.resumed) ∈ (resumeSuspended srcGuards d').2 ∧
+       c ∈ (resumeSuspended srcGuards d').1.active)) ∧
+    (let d' := (travAll srcGuards fr fw rd wr l₂ (resumeReq (travAll srcGuards fr fw rd wr l₁ d).1 c).1).1
+     Pend c d' ∧ d'.hintZero = true ∧ (WF d' → (c, CEv.resumed) ∈ (resumeSuspended srcGuards d').2 ∧
+       c ∈ (resumeSuspended srcGuards d').1.active)) := by
+  have fin : ∀ d' : Daemon, Pend c d' → Pend c d' ∧ d'.hintZero = true ∧ (WF d' → (c, CEv.resumed) ∈ (resumeSuspended srcGuards d').2 ∧
+       c ∈ (resumeSuspended srcGuards d').1.active) := fun d' hp =>
+    ⟨hp, Pend_hint hp, fun hw => ⟨(resume_moves_back srcGuards d' hw c hp.1 hp.2.1).1, (resume_moves_back srcGuards d' hw c hp.1 hp.2.1).2.1⟩⟩
+  exact ⟨fin _ (Pend_travEready srcGuards c l₂ _ h₂ (Pend_resumeReq _ c (susp_travEready srcGuards c l₁ d hs))),
+    fin _ (Pend_travSelect srcGuards c fr fw rd wr l₂ _ h₂ (Pend_resumeReq _ c (susp_travSelect srcGuards c fr fw rd wr l₁ d hs))),
+    fin _ (Pend_travAll srcGuards c fr fw rd wr l₂ _ h₂ (Pend_resumeReq _ c (susp_travAll srcGuards c fr fw rd wr l₁ d hs)))⟩
 
 /-! ### non-vacuity, and witnesses that the guards are necessary -/
 
@@ -201,36 +295,103 @@ def rounds (n : Nat) : List Op := List.replicate n (.round [0, 1] allReady allRe
 
 def demoPlans : Nat → Plan := fun c => if c = 0 then demoPlan else { size := 3, rid := 2 }
 
+def noLater : Nat → List Plan := fun _ => []
+
 /-- two connections, the first one with suspend points of all four kinds -/
 def demoOps : List Op :=
   [.arrive 0, .arrive 1, .send 0 demoSyms, .send 1 [.head]] ++ rounds 9 ++ [.resume 0] ++ rounds 9
 
 /-- the demo history suspends connection 0 four times effectively and once in vain (resume first),
     serves both requests completely and leaves nobody suspended -/
-example : ((run srcGuards (Daemon.init .select demoPlans) demoOps).1.conn 0).st = .finished ∧
-    ((run srcGuards (Daemon.init .select demoPlans) demoOps).1.conn 1).st = .finished ∧
-    (run srcGuards (Daemon.init .select demoPlans) demoOps).1.susp = [] ∧
-    ((proj 0 (run srcGuards (Daemon.init .select demoPlans) demoOps).2).filter (· == .suspend true)).length = 4 ∧
-    ((proj 0 (run srcGuards (Daemon.init .select demoPlans) demoOps).2).filter (· == .suspend false)).length = 1 ∧
-    upBytes (proj 0 (run srcGuards (Daemon.init .select demoPlans) demoOps).2) = [1, 2, 3] := by decide
+example : ((run srcGuards (Daemon.init .select demoPlans noLater) demoOps).1.conn 0).st = .finished ∧
+    ((run srcGuards (Daemon.init .select demoPlans noLater) demoOps).1.conn 1).st = .finished ∧
+    (run srcGuards (Daemon.init .select demoPlans noLater) demoOps).1.susp = [] ∧
+    ((proj 0 (run srcGuards (Daemon.init .select demoPlans noLater) demoOps).2).filter (· == .suspend true)).length = 4 ∧
+    ((proj 0 (run srcGuards (Daemon.init .select demoPlans noLater) demoOps).2).filter (· == .suspend false)).length = 1 ∧
+    upBytes (proj 0 (run srcGuards (Daemon.init .select demoPlans noLater) demoOps).2) = [1, 2, 3] := by decide
 
 /-- the same request with every suspend erased runs to completion as well (hypotheses of
     `stutter_equivalence` are satisfiable) -/
-example : ((run srcGuards (Daemon.init .epoll (fun c => (demoPlans c).erase))
+example : ((run srcGuards (Daemon.init .epoll (fun c => (demoPlans c).erase) noLater)
       ([.arrive 0, .send 0 demoSyms, .eround [0] [], .eround [0] [(0, true, true)], .eround [0] [], .eround [0] [],
         .eround [0] [], .eround [0] []])).1.conn 0).st = .finished := by decide
 
 /-- a reachable state with one connection suspended (hypotheses of `suspended_frozen`) … -/
-example : (run srcGuards (Daemon.init .epoll demoPlans)
+example : (run srcGuards (Daemon.init .epoll demoPlans noLater)
       [.arrive 0, .arrive 1, .send 0 demoSyms, .eround [0, 1] [], .eround [0, 1] [(0, true, true)]]).1.susp = [0] ∧
-    ((run srcGuards (Daemon.init .epoll demoPlans)
+    ((run srcGuards (Daemon.init .epoll demoPlans noLater)
       [.arrive 0, .arrive 1, .send 0 demoSyms, .eround [0, 1] [], .eround [0, 1] [(0, true, true)]]).1.conn 0).resuming = false := by
   decide
 
 /-- … and one with a pending resume request (hypotheses of `resume_reenters`) -/
-example : (run srcGuards (Daemon.init .select demoPlans) ([.arrive 0, .send 0 demoSyms] ++ rounds 4)).1.susp = [0] ∧
-    ((run srcGuards (Daemon.init .select demoPlans) ([.arrive 0, .send 0 demoSyms] ++ rounds 4)).1.conn 0).resuming = true := by
+example : (run srcGuards (Daemon.init .select demoPlans noLater) ([.arrive 0, .send 0 demoSyms] ++ rounds 4)).1.susp = [0] ∧
+    ((run srcGuards (Daemon.init .select demoPlans noLater) ([.arrive 0, .send 0 demoSyms] ++ rounds 4)).1.conn 0).resuming = true := by
   decide
+
+
+/-! ### non-vacuity for the pipelined statements -/
+
+/-- a keep-alive pipeline of three requests on connection 0 — chunked upload, Content-Length upload,
+    GET — with suspend points in every one of them -/
+def pipeFirst : Plan := { body := .chunked, us := [(0, .delay 1)], rs := [(0, .delay 0)], size := 5, cbmax := 3, rid := 1 }
+def pipeLater : List Plan :=
+  [{ body := .cl 3, fs := [.imm], us := [(0, .delay 2)], ls := [.delay 0], rkind := .cbKnown, size := 4, cbmax := 2, rid := 2 },
+   { fs := [.pre], ls := [.manual], size := 2, rid := 3 }]
+
+/-- the client sends all three requests at once: while request 0 is suspended, requests 1 and 2 sit in
+    the read buffer (read-ahead) -/
+def pipeSyms : List Sym :=
+  [.head, .sz 2, .b 1, .b 2, .crlf, .last, .trailerEnd, .head, .b 7, .b 8, .b 9, .head]
+
+def pipeOps : List Op :=
+  [.arrive 0, .send 0 pipeSyms] ++ List.replicate 16 (.eround [0] [(0, true, true)]) ++ [.resume 0] ++
+  List.replicate 6 (.eround [0] [])
+
+/-- the pipelined history (epoll mode) serves all three requests, suspends 6 times effectively and once in
+    vain, delivers the upload bytes of requests 0 and 1 in order and leaves nothing behind
+    (hypotheses of `reply_lossless`, `stutter_equivalence`: `finished ∧ later = []`) -/
+example :
+    let r := run srcGuards (Daemon.init .epoll (fun _ => pipeFirst) (fun _ => pipeLater)) pipeOps
+    (r.1.conn 0).st = .finished ∧ (r.1.conn 0).later = [] ∧ (r.1.conn 0).done.length = 2 ∧ r.1.susp = [] ∧
+    ((proj 0 r.2).filter (· == .suspend true)).length = 6 ∧ ((proj 0 r.2).filter (· == .suspend false)).length = 1 ∧
+    ((proj 0 r.2).filter (· == .completed)).length = 3 ∧
+    upBytes (proj 0 r.2) = [1, 2, 7, 8, 9] ∧ (wireBytes (proj 0 r.2)).length = 11 := by decide
+
+/-- read-ahead while suspended: after the first rounds request 0 is suspended in its upload call and the
+    complete requests 1 and 2 are in the read buffer — `suspended_frozen` keeps them there (`Conn.core`
+    contains `rbuf`) -/
+example :
+    let d := (run srcGuards (Daemon.init .epoll (fun _ => pipeFirst) (fun _ => pipeLater))
+      [.arrive 0, .send 0 pipeSyms, .eround [0] [], .eround [0] [(0, true, true)]]).1
+    d.susp = [0] ∧ (d.conn 0).done = [] ∧ (d.conn 0).rbuf = [.crlf, .last, .trailerEnd, .head, .b 7, .b 8, .b 9, .head] := by
+  decide
+
+/-- the same pipeline with every suspend erased runs to completion in select mode
+    (second history of `stutter_equivalence`) -/
+example :
+    let r := run srcGuards (Daemon.init .select (fun _ => pipeFirst.erase) (fun _ => pipeLater.map Plan.erase))
+      ([.arrive 0, .send 0 pipeSyms] ++ List.replicate 12 (.round [0] allReady allReady))
+    (r.1.conn 0).st = .finished ∧ (r.1.conn 0).later = [] ∧ upBytes (proj 0 r.2) = [1, 2, 7, 8, 9] := by decide
+
+/-- hypotheses of `epoll_no_lost_wakeup`: a reachable epoll state with connection 0 suspended and its
+    resume requested; the next round is run with *no* epoll event and serves it: the handler is called -/
+example :
+    let d := (run srcGuards (Daemon.init .epoll (fun _ => pipeFirst) (fun _ => pipeLater))
+      [.arrive 0, .send 0 pipeSyms, .eround [0] [], .eround [0] [(0, true, true)], .resume 0]).1
+    0 ∈ (timers d [0]).1.susp ∧ ((timers d [0]).1.conn 0).resuming = true ∧ d.hintZero = true ∧
+    (0, CEv.resumed) ∈ (roundEpoll srcGuards d [0] []).2 ∧
+    ((proj 0 (roundEpoll srcGuards d [0] []).2).filter (fun e => match e with | .handler .. => true | _ => false)).length = 1 := by
+  decide
+
+/-- an all-Content-Length pipeline (hypothesis of `upload_complete` and of the upload half of
+    `stutter_equivalence`) -/
+example : ∀ p ∈ ({ body := .cl 2, size := 1 } : Plan) :: [{ body := .none, size := 1 }, { body := .cl 1, size := 1 }],
+    p.body ≠ .chunked := by decide
+
+/-- hypotheses of `resume_inside_traversal_partial`: connection 0 suspended, connection 1 in the traversal -/
+example : let d := (run srcGuards (Daemon.init .epoll demoPlans noLater)
+      [.arrive 0, .arrive 1, .send 0 demoSyms, .eround [0, 1] [], .eround [0, 1] [(0, true, true)]]).1
+    0 ∈ d.susp ∧ 0 ∉ [1] := by decide
 
 /-- the unchanged tree's `process_request_body` loops `while (instant_retry)` without looking at
     `connection->suspended`; every other guard present -/
